@@ -482,6 +482,29 @@ func runC03(c *Ctx) {
 		c.verdict(len(bad) == 0 && n >= 3, "blockManager | all-peer queries run until every peer answered or timed out", "-", fmt.Sprintf("%d response callback(s); none closes the query-wide quit channel", n), join(bad)+fmt.Sprintf(" (%d callbacks found, 3 tabled)", n), sites...)
 	})
 
+	c.rule("C03.V2", "the whole cfheaders message is hashed: the header-chain loops of verifyCheckpoint and writeCFHeadersMsg visit every entry of FilterHashes (indices 0..len-1, no early exit), each iteration folding the entry into the running header with DoubleHashH; writeCFHeadersMsg's notification loop visits every matching block header", func() {
+		dh := c.funcObj(pChainhash, "DoubleHashH")
+		fh := c.field(pWire, "MsgCFHeaders", "FilterHashes")
+		for _, name := range []string{"neutrino.verifyCheckpoint", "(*neutrino.blockManager).writeCFHeadersMsg"} {
+			fn := c.fn(name)
+			calls := find(fn, callTo(dh))
+			if len(calls) != 1 || ir.LoopHeaderOf(calls[0].Block()) == nil {
+				c.fail(name+" | header chain loop", c.P.Pos(fn.Pos()), fmt.Sprintf("%d DoubleHashH call(s) in a loop, 1 tabled", len(calls)))
+				continue
+			}
+			h := ir.LoopHeaderOf(calls[0].Block())
+			c.fullRange(fn, h, "the header-chain loop", loadsField(fh), 0, func(*ssa.Return) bool { return true })
+			var starts []start
+			for i, sc := range h.Succs {
+				if ir.LoopBlocks(h)[sc] {
+					starts = append(starts, atEdge(c, ir.Edge{From: h, Succ: i}, "next filter hash"))
+				}
+			}
+			call := calls[0]
+			c.mustFollowIter(fn, "each filter hash", starts, func(in ssa.Instruction) bool { return in == call }, "DoubleHashH(hash || lastHeader)", nil, 1)
+		}
+	})
+
 	c.rule("C03.W1", "only the tabled functions write or roll back the filter-header store", func() {
 		c.whoMay("FilterHeaderStore.{WriteHeaders,RollbackLastBlock}", callTo(fhs("WriteHeaders"), fhs("RollbackLastBlock")), []string{
 			fnWriteCFH, fnRollBack,
